@@ -218,6 +218,7 @@ def refreshed_operators(rep, rng, mesh, mi):
     em = mesh.edge_mesh
     E = len(em.edges)
     mo = MeshOperators(mesh, SparseSolver.SUPERLU, fixed_sites=np.array([], dtype=np.int64), fix_psi=False)
+    meshes.build_like_solver(mo)           # the solver's life cycle: every operator built before the link variables are set / refreshed
     for k in range(3):
         mo.set_link_exponents(np.array([[rng.gauss(0, 1), rng.gauss(0, 1)] for _ in range(E)]))
     H = (sp.diags(mesh.areas) @ mo.psi_laplacian).toarray()
